@@ -234,6 +234,7 @@ def run(ctx):
     variable_evaluation_is_guarded(ctx)
     macro_table_holds_no_null(ctx)
     predecrement_subscripts_have_a_floor(ctx)
+    null_noticed_is_null_handled(ctx)
     instance_substitution_registers_first(ctx)
     containment_recursion(ctx)
     construction_stacks(ctx)
@@ -2402,3 +2403,77 @@ def predecrement_subscripts_have_a_floor(ctx):
                    "`%s` is decremented for the subscript only where it is above 0" % r.get("n") if ok else "`%s` may be 0 when it is decremented for the subscript" % r.get("n"))
     ctx.ob("R15.32", "no-unfloored-predecrement-subscript", True, "src", "%d functions examined, %d pre-decremented subscripts" % (n, m))
     ctx.floor("R15.32", "functions examined", n, 500)
+
+
+def _leaves(st):
+    k = st.get("k") if st else None
+    if k in ("ret", "break", "continue", "goto"):
+        return True
+    if k == "call" and callee_short(st) in ("exit", "abort", "_exit"):
+        return True
+    if k == "block" and st.get("s"):
+        return any(_leaves(x) for x in st["s"])
+    if k == "if" and st.get("else") is not None:
+        return _leaves(st["then"]) and _leaves(st["else"])
+    return False
+
+
+def null_noticed_is_null_handled(ctx):
+    """R15.33 (a contradiction rule): `if (p == nullptr) { report }` says that p can be null here.  If the branch neither
+    leaves nor gives p a value, everything after it runs with p null as well - and an `assert(p != nullptr)` in between is
+    no help in the tools as built.  After such a branch p is not dereferenced, and not handed to a callee that dereferences
+    the parameter unguarded, without a new test.  (F-C15ad: `forcetype struct { int a; }` in a .N file - "Failure to parse
+    forcetype", then get_type(nullptr).)"""
+    db = ctx.db
+    ctx.rule("R15.33", "after `if (p == nullptr) { ... }` whose branch neither leaves nor assigns p, p is not dereferenced (here or by the callee it is passed to) without a new non-null test")
+    byname = {}
+    for g in db.functions:
+        byname.setdefault(g.name, []).append(g)
+
+    def callee_derefs(g, idx):
+        ps = g.params or []
+        if idx >= len(ps):
+            return False
+        pd = ps[idx].get("d")
+        e = G.edges_where(g, G.local_is_null(pd, null=False)) + G.edges_where(g, G.local_true(pd))
+        return any((local_ref(_deref_base(x)) or {}).get("d") == pd and not G.gated(g, x, e) for x in g.walk() if _deref_base(x) is not None)
+    n = 0
+    for f in db.functions:
+        if "bison" in f.file.lower() or not any(d in f.file for d in ("/cppparser/", "/interrogate/", "/interrogatedb/")):
+            continue
+        for st in f.walk():
+            if st.get("k") != "if" or st.get("else") is not None:
+                continue
+            ca = G.cmp_atom(st["c"])
+            if not ca or ca[0] != "==":
+                continue
+            p_ = None
+            for u, v in ((ca[1], ca[2]), (ca[2], ca[1])):
+                if u is not None and v is not None and (strip_casts(peel(v)) or {}).get("k") == "nullp" and local_ref(u) is not None:
+                    p_ = local_ref(u)
+            if p_ is None:
+                continue
+            n += 1
+            if _leaves(st["then"]) or any(assigned_target(y) and (local_ref(assigned_target(y)[0]) or {}).get("d") == p_["d"] for y in walk(st["then"])):
+                continue
+            e = G.edges_where(f, G.local_is_null(p_["d"], null=False)) + G.edges_where(f, G.local_true(p_["d"]))
+            inside = {id(z) for z in walk(st)}
+            bad = None
+            for x in f.walk():
+                if id(x) in inside or x.get("i", 0) <= st.get("i", 0):
+                    continue
+                hit = None
+                b = _deref_base(x)
+                if b is not None and (local_ref(b) or {}).get("d") == p_["d"]:
+                    hit = "dereferenced"
+                if x.get("k") == "call":
+                    for i, a in enumerate(x.get("a") or []):
+                        if (local_ref(a) or {}).get("d") == p_["d"] and any(callee_derefs(g, i) for g in byname.get(x.get("f"), [])):
+                            hit = "passed to %s(), which dereferences it" % callee_short(x)
+                if hit and not G.gated(f, x, e) and G.reaches_avoiding(f, st["c"], [], x):
+                    bad = (x, hit)
+                    break
+            ctx.ob("R15.33", "%s|%s==nullptr@%s|handled" % (f.name, p_.get("n"), f.loc(st).split(":")[-1]), bad is None, f.loc(bad[0]) if bad else f.loc(st),
+                   "the null case is reported and execution goes on, but `%s` is not used unguarded afterwards" % p_.get("n") if bad is None else
+                   "`%s` was just found to be null (the branch goes on) and is then %s" % (p_.get("n"), bad[1]))
+    ctx.floor("R15.33", "`local == nullptr` tests examined", n, 70)
